@@ -506,7 +506,7 @@ func Run(c *core.Ctx) core.FinishOpts {
 	return core.FinishOpts{
 		Level: "exploration",
 		Rule: "cases = seeded random plugin directory trees (names a, my-db, a-b-c, plugin, octosql-plugin-x, ...; repositories core/other/my-repo; 1-5 versions with prereleases and build metadata) " +
-			"x constraints (*, ^, ~, ranges, exact, prerelease-admitting, ||) x manifests in random order; in-process manager API in child processes + CLI (dbLoop via <db>.version, plugins.installed_*, plugin install); " +
+			"x constraints (*, ^, ~, ranges, exact, prerelease-admitting, ||) x manifests in random order; in-process manager API in child processes + CLI (dbLoop via <db>.version with one database per config and with 2-3 databases sharing a plugin (fixed tight-then-loose / loose-then-tight / mixed-kind configurations + seeded ones, every database queried), plugins.installed_*, plugin install); " +
 			"non-trivial = some plugin has >= 2 versions, or a name contains '-', or a manifest/constraint decision among >= 2 versions; distinct by the normalised case description",
 		Floor: c.Pick(150, 5000),
 		Assumptions: []string{
@@ -896,6 +896,8 @@ func cliLeg(c *core.Ctx) {
 	core.Parallel(len(cases), 16, func(i int) {
 		runCLICase(c, r, srv, sockDir, testplugin, cases[i], selfIdx[i])
 	})
+
+	multiDBLeg(c, r, srv, sockDir, testplugin)
 
 	ni := c.Pick(16, 150)
 	var icases []installCLICase
